@@ -9,6 +9,8 @@ mod mpmc;
 mod oneshot;
 mod state;
 mod timer;
+mod ringbuf;
+mod dlist;
 
 use crate::core::*;
 use std::io::{BufRead, Write};
@@ -42,6 +44,8 @@ fn make(prim: &str, flavour: &str, cfg: &[u64]) -> Option<Box<dyn Exec>> {
         ("state", "shared") => Box::new(state::SharedState::<Sync>::new(cfg)),
         ("timer", "local") => Box::new(timer::LocalTimerExec::<Local>::new(cfg)),
         ("timer", "sync") => Box::new(timer::SyncTimerExec::<Sync>::new(cfg)),
+        ("ringbuf", _) => return ringbuf::make(cfg),
+        ("dlist", _) => Box::new(dlist::DListExec::new(cfg)),
         _ => return None,
     })
 }
